@@ -338,6 +338,37 @@ def _assignments(fnode, name):
             and n.targets[0].id == name]
 
 
+def check_exact_mesh(prog, report):
+    """R-tolerance (mesh): src/mesh.py compares coordinates exactly.  The
+    coordinates of a bisection mesh are exact in floating point; a tolerance
+    comparison (isclose / allclose, default rtol 1e-5..1e-9) stops telling
+    neighbouring vertices apart at refinement levels the adaptive loop does
+    reach, so an assertion or a branch built on it fails there."""
+    m = prog.module(M)
+    hits = []
+    n = 0
+    for q, fi in m.funcs.items():
+        for node in ast.walk(fi.node):
+            if isinstance(node, ast.Call):
+                n += 1
+                name = text(node.func)
+                if name.split('.')[-1] in ('isclose', 'allclose',
+                                           'assert_allclose',
+                                           'assert_almost_equal'):
+                    hits.append((fi, node, name))
+    for fi, node, name in hits:
+        report.violation(
+            'R-tolerance', '%s uses %s' % (fi.qualname, name),
+            fi.where(node),
+            'a tolerance comparison of mesh coordinates / sizes: exact on '
+            'coarse meshes, wrong once elements are smaller than the '
+            'tolerance times their coordinates',
+            construct='%s: tolerance comparison in the mesh' % fi.qualname)
+    if not hits:
+        report.ok('R-tolerance', 'src/mesh.py compares exactly', M,
+                  '%d calls scanned, no isclose / allclose' % n)
+
+
 def check_marking(prog, report):
     for q, aniso in (('Mesh.dorfler_refine_isotropic', False),
                      ('Mesh.dorfler_refine_anisotropic', True)):
@@ -365,9 +396,11 @@ def check_marking(prog, report):
         # the marking loop: the for loop containing `break`
         mloops = [n for n in fn.body if isinstance(n, ast.For) and any(
             isinstance(m, ast.Break) for m in ast.walk(n))]
-        if len(mloops) != 1:
+        if not mloops:
             raise AnalysisError('%s: marking loop (for ... break) not found'
                                 % fi.where())
+        # the first one is the bulk loop; anything else that adds to the
+        # marked collection is checked below
         ml = mloops[0]
         pos_mark = pos_acc = pos_test = None
         acc = accval = mark = brk = None
@@ -389,6 +422,35 @@ def check_marking(prog, report):
         if None in (pos_mark, pos_acc, pos_test):
             raise AnalysisError('%s: marking loop lacks mark/accumulate/'
                                 'test' % fi.where(ml))
+        base = mark.func.value
+        while isinstance(base, ast.Subscript):
+            base = base.value
+        coll = text(base)
+        extra = []
+        for n_ in ast.walk(fn):
+            if any(n_ is x for x in ast.walk(ml)):
+                continue
+            tgt_ = None
+            if isinstance(n_, ast.Call) and isinstance(
+                    n_.func, ast.Attribute) and n_.func.attr in (
+                        'append', 'extend', 'insert', 'add', 'update'):
+                tgt_ = n_.func.value
+            elif isinstance(n_, ast.AugAssign):
+                tgt_ = n_.target
+            if tgt_ is not None:
+                b_ = tgt_
+                while isinstance(b_, ast.Subscript):
+                    b_ = b_.value
+                if text(b_) == coll:
+                    extra.append(n_)
+        report.check(
+            not extra, 'R-mark', short + ' only the bulk loop marks',
+            fi.where(extra[0]) if extra else fi.where(ml),
+            'elements are added to `%s` only by the bulk loop, so the '
+            'marked set is exactly the shortest prefix reaching the '
+            'threshold%s' % (coll, (': also `%s`' % text(extra[0])[:50])
+                             if extra else ''),
+            construct=short + ': marks outside the bulk loop')
         report.check(
             pos_mark < pos_test and pos_acc < pos_test, 'R-mark',
             short + ' loop order', fi.where(ml),
